@@ -57,7 +57,7 @@ Theorem C02_result_refuted :
   (exists c w v, recv_answer (Some c) w = Callback v /\ checkObject c v = false /\
                  c = CTuple [CInt (Some 1024); CInt (Some 1024)] /\ w = WOpen OtTuple [WInt 129 7 7]) /\
   (exists c w v, recv_answer (Some c) w = Callback v /\ checkObject c v = false /\
-                 c = CText (Some 3) 0 /\ w = slice (OText [116; 111; 111; 108; 111; 110; 103])) /\
+                 c = CText (Some 3) 0 /\ w = slice [] (OText [116; 111; 111; 108; 111; 110; 103])) /\
   (exists c w v, recv_answer (Some c) w = Callback v /\ checkObject c v = false /\
                  c = CInt (Some (-1)) /\ w = WInt 129 (2 ^ 40) (2 ^ 40)) /\
   (exists c w v, recv_answer (Some c) w = Callback v /\ checkObject c v = false /\
